@@ -43,15 +43,62 @@ func (in *Interp) mapFind(m *Map, k Value) *mapEnt {
 		}
 		return nil
 	}
+	// symbolic key: try the entry the cached model points at first, then rule out "no entry" in one query
+	var live []*mapEnt
+	var eqs []*Term
 	for _, e := range m.ents {
-		if e.dead {
-			continue
-		}
-		if in.decide(in.valEq(e.k, k)) {
-			return e
+		if !e.dead {
+			live = append(live, e)
+			eqs = append(eqs, in.valEq(e.k, k))
 		}
 	}
-	return nil
+	if len(live) <= 2 {
+		for i, e := range live {
+			if in.decide(eqs[i]) {
+				return e
+			}
+		}
+		return nil
+	}
+	// model-guided search: each feasible outcome (entry i / no entry) costs O(1) queries
+	excluded := make([]bool, len(live))
+	for {
+		cand := int(in.hint(func() int64 {
+			if in.ensureModel() {
+				for i, q := range eqs {
+					if !excluded[i] && !q.isFalse() && in.evalModel(q) {
+						return int64(i)
+					}
+				}
+			}
+			return -1
+		}))
+		if cand >= 0 && cand < len(eqs) && !excluded[cand] {
+			if in.decide(eqs[cand]) {
+				return live[cand]
+			}
+			excluded[cand] = true
+			continue
+		}
+		any := tFalse
+		for i, q := range eqs {
+			if !excluded[i] {
+				any = Or(any, q)
+			}
+		}
+		if !in.decide(any) {
+			return nil
+		}
+		if any.isC {
+			// constant true cannot happen with all candidates excluded; guard against looping
+			for i := range live {
+				if !excluded[i] && in.decide(eqs[i]) {
+					return live[i]
+				}
+			}
+			return nil
+		}
+	}
 }
 
 func (in *Interp) mapLookup(m *Map, k Value) (Value, bool) {
